@@ -194,6 +194,9 @@ pub struct NetCase {
     pub known_peers: bool,
     pub loss: Vec<FaultSeg>,
     pub fault_seed: u64,
+    /// max_concurrent_outstanding_connecting_connections on both nodes (a legal, unusual setting)
+    #[serde(default)]
+    pub outstanding_cap: Option<u8>,
 }
 
 pub fn net_case(case: &NetCase, obs: &mut Obs) -> Result<(), Fail> {
@@ -213,6 +216,7 @@ pub fn net_case_clock(case: &NetCase, obs: &mut Obs, virtual_time: bool) -> Resu
             let q = s.config.quic.as_mut().unwrap();
             q.keep_alive_interval_ms = Some(if virtual_time { 1_000 } else { 600 });
             q.max_idle_timeout_ms = Some(idle);
+            s.config.max_concurrent_outstanding_connecting_connections = case.outstanding_cap.map(|c| c as usize);
             s.config.connectivity_check_interval_ms = Some(2_000);
             s.config.connection_backoff_ms = Some(1_000);
             s.config.max_connection_backoff_ms = Some(2_000);
@@ -252,11 +256,16 @@ pub fn net_case_clock(case: &NetCase, obs: &mut Obs, virtual_time: bool) -> Resu
             eprintln!("[{:>6} ms] dial results: A {:?} B {:?}", sim.fabric.now_ms(), ra.as_ref().map(|r| r.as_ref().map(|_| ()).map_err(|e| e.to_string())), rb.as_ref().map(|r| r.as_ref().map(|_| ()).map_err(|e| e.to_string())));
         }
         let both_ok = matches!(ra, Ok(Ok(_))) && matches!(rb, Ok(Ok(_)));
+        vensure!(ra.is_ok() && rb.is_ok(), "c05:dial-hang", "a dial did not return within 30 virtual seconds");
         if !both_ok {
-            // only possible under loss (or when a dial lost the race so badly that it was refused): not this property's business
-            vensure!(!case.loss.is_empty() || true, "c05:unreachable", "");
-            obs.label("discarded:a-dial-failed");
-            return Ok(());
+            // A dial may legitimately fail: the other side refuses the connection that loses the
+            // tie-break, sometimes before the dialer's handshake is through. What must not happen
+            // without loss is that the pair ends up unconnected, so only lossy cases are set aside.
+            if !case.loss.is_empty() {
+                obs.label("discarded:a-dial-failed-under-loss");
+                return Ok(());
+            }
+            obs.label("a-dial-failed-without-loss");
         }
         // Wait until the network is quiet: faults are over and neither side has announced anything
         // for a whole window. A close packet lost to the fault script is only noticed through the
@@ -324,13 +333,13 @@ impl Part for Networks {
     type Case = NetCase;
     fn name(&self) -> &'static str { "networks" }
     fn rule(&self) -> &'static str {
-        "two networks: A.connect(B) and B.connect(A) with a generated start offset (+-1.5 s), independent one-way delays 1-600 ms each way (so either connection can complete first at either side, and closes can arrive late), optionally both also High-affinity known peers of each other, optional loss bursts (<=2 s); keep-alive 1 s, idle timeout >= 5 s; cases where a dial returns Err are discarded (counted); oracle once quiet: each lists the other exactly once, events alternate and leave the other listed, RPCs succeed both ways, and no further event occurs during the next 3 idle timeouts; non-trivial = the two dials overlapped in time or a replacement (Lost+New) was observed; distinct by case"
+        "two networks: A.connect(B) and B.connect(A) with a generated start offset (+-1.5 s), independent one-way delays 1-600 ms each way (so either connection can complete first at either side, and closes can arrive late), optionally both also High-affinity known peers of each other, optionally max_concurrent_outstanding_connecting_connections of 1-3 on both, optional loss bursts (<=2 s); keep-alive 1 s, idle timeout >= 5 s; a dial that returns Err is accepted (the loser may be refused early) but, unless loss was injected, the pair must still converge; oracle once quiet: each lists the other exactly once, events alternate and leave the other listed, RPCs succeed both ways, and no further event occurs during the next 3 idle timeouts; non-trivial = the two dials overlapped in time or a replacement (Lost+New) was observed; distinct by case"
     }
     fn strategy(&self, _t: Tier) -> BoxedStrategy<NetCase> {
         let delay = || prop_oneof![3 => 1u16..40, 2 => 40u16..200, 1 => 200u16..600];
         let loss = (0u64..500, 50u64..2000, 50u16..400).prop_map(|(t0, len, loss_pm)| FaultSeg { t0_ms: t0, t1_ms: t0 + len, loss_pm, ..Default::default() });
-        (0u8..12, 0u8..12, prop_oneof![3 => -60i16..60, 2 => -1500i16..1500, 1 => Just(0i16)], delay(), delay(), prop::bool::weighted(0.3), prop::collection::vec(loss, 0..2), any::<u64>())
-            .prop_map(|(key_a, key_b, offset_ms, delay_ab_ms, delay_ba_ms, known_peers, loss, fault_seed)| NetCase { key_a, key_b, offset_ms, delay_ab_ms, delay_ba_ms, known_peers, loss, fault_seed })
+        (0u8..12, 0u8..12, prop_oneof![3 => -60i16..60, 2 => -1500i16..1500, 1 => Just(0i16)], delay(), delay(), prop::bool::weighted(0.3), prop::collection::vec(loss, 0..2), any::<u64>(), prop_oneof![4 => Just(None), 1 => (1u8..4).prop_map(Some)])
+            .prop_map(|(key_a, key_b, offset_ms, delay_ab_ms, delay_ba_ms, known_peers, loss, fault_seed, outstanding_cap)| NetCase { key_a, key_b, offset_ms, delay_ab_ms, delay_ba_ms, known_peers, loss, fault_seed, outstanding_cap })
             .boxed()
     }
     fn run(&self, c: &NetCase, obs: &mut Obs) -> Result<(), Fail> { net_case(c, obs) }
@@ -350,7 +359,7 @@ impl Part for NetworksRealTime {
         // offsets of seconds: the later dial then meets a connection that has been registered for a while
         let delay = || prop_oneof![2 => 250u16..600, 1 => 600u16..1200];
         (0u8..12, 0u8..12, prop_oneof![1 => -300i16..300, 1 => -3000i16..3000, 1 => prop_oneof![-3000i16..-2200, 2200i16..3000]], delay(), delay(), any::<u64>())
-            .prop_map(|(key_a, key_b, offset_ms, delay_ab_ms, delay_ba_ms, fault_seed)| NetCase { key_a, key_b, offset_ms, delay_ab_ms, delay_ba_ms, known_peers: false, loss: vec![], fault_seed })
+            .prop_map(|(key_a, key_b, offset_ms, delay_ab_ms, delay_ba_ms, fault_seed)| NetCase { key_a, key_b, offset_ms, delay_ab_ms, delay_ba_ms, known_peers: false, loss: vec![], fault_seed, outstanding_cap: None })
             .boxed()
     }
     fn run(&self, c: &NetCase, obs: &mut Obs) -> Result<(), Fail> {
@@ -360,13 +369,74 @@ impl Part for NetworksRealTime {
     }
 }
 
+// ============================================================ (v) close notice racing the winner's registration (real threads)
+
+#[derive(Clone, Debug, Serialize, Deserialize, PartialEq, Eq, Hash)]
+pub struct RaceCase {
+    pub key_a: u8,
+    pub key_b: u8,
+    pub rounds: u16,
+}
+
+pub struct CloseNoticeRace;
+impl Part for CloseNoticeRace {
+    type Case = RaceCase;
+    fn name(&self) -> &'static str { "close-notice-race" }
+    fn deterministic(&self) -> bool { false }
+    fn rule(&self) -> &'static str {
+        "one side's active-peer set (hook H6) with the two real connections of a mutual dial; per round: the losing connection is registered, then on two OS threads released by a barrier the winning connection is added while the loser's handler reports its end (remove_with_stable_id with the loser's id); oracle: whichever order the two calls take effect in, the set ends up holding the winner (the end of a replaced connection never removes its replacement); real threads: interleavings are sampled; non-trivial = every case; distinct by case"
+    }
+    fn strategy(&self, _t: Tier) -> BoxedStrategy<RaceCase> {
+        (0u8..12, 0u8..12, 300u16..3000).prop_map(|(key_a, key_b, rounds)| RaceCase { key_a, key_b, rounds }).boxed()
+    }
+    fn run(&self, case: &RaceCase, obs: &mut Obs) -> Result<(), Fail> {
+        if case.key_a == case.key_b { return Ok(()); }
+        let case = case.clone();
+        run_sim(63, 1, |sim| async move {
+            let ea = bed_endpoint(&sim.fabric, 0, 700 + case.key_a as u64).map_err(|e| Fail::Inconclusive(e.to_string()))?;
+            let eb = bed_endpoint(&sim.fabric, 1, 700 + case.key_b as u64).map_err(|e| Fail::Inconclusive(e.to_string()))?;
+            let (a_out, _b0) = connect_pair(&ea, &eb).await.map_err(|e| Fail::Inconclusive(e.to_string()))?;
+            let (_b1, a_in) = connect_pair(&eb, &ea).await.map_err(|e| Fail::Inconclusive(e.to_string()))?;
+            // at A: the rule keeps the connection dialed by the greater id
+            let a_greater = ea.id.0 > eb.id.0;
+            let (winner, w_origin, loser, l_origin) = if a_greater { (a_out, ConnectionOrigin::Outbound, a_in, ConnectionOrigin::Inbound) } else { (a_in, ConnectionOrigin::Inbound, a_out, ConnectionOrigin::Outbound) };
+            let mut removed_winner = 0u32;
+            for round in 0..case.rounds {
+                let driver = ActivePeersDriver::new(ea.id, 64);
+                let (_, l_sid, _) = driver.add(loser.clone(), l_origin).map_err(|e| Fail::violation("c05:add-failed", e.to_string()))?;
+                let barrier = std::sync::Arc::new(std::sync::Barrier::new(2));
+                let (d1, d2, b1, b2) = (driver.clone(), driver.clone(), barrier.clone(), barrier.clone());
+                let w = winner.clone();
+                let peer = eb.id;
+                // sweep the relative start of the two calls (adding a connection does some work before
+                // it reaches the set, reporting an end does not): one of them spins a little first
+                let spin = |n: u32| { let mut x = 0u64; for i in 0..n { x = x.wrapping_add(i as u64); std::hint::black_box(x); } };
+                let (s1, s2) = if round % 2 == 0 { (0, (round as u32 / 2 % 250) * 400) } else { ((round as u32 / 2 % 50) * 40, 0) };
+                let t1 = std::thread::spawn(move || { b1.wait(); spin(s1); d1.add(w, w_origin).map(|(_, sid, _)| sid).map_err(|e| e.to_string()) });
+                let t2 = std::thread::spawn(move || { b2.wait(); spin(s2); d2.remove_with_stable_id(peer, l_sid, DisconnectReason::ConnectionClosed); });
+                let w_sid = match t1.join() { Ok(Ok(s)) => s, Ok(Err(e)) => vfail!("c05:add-failed", "{e}"), Err(_) => return Err(Fail::Inconclusive("thread panicked".into())) };
+                let _ = t2.join();
+                match driver.get(&eb.id) {
+                    Some(g) if g.0 == w_sid => {}
+                    Some(g) => vfail!("c05:wrong-survivor", "round {round}: the set holds connection {} after the winner (stable id {w_sid}) was added", g.0),
+                    None => { removed_winner += 1; vfail!("c05:no-connection-left", "round {round}: the winner was added while the replaced connection's end was being reported on another thread; afterwards the set holds no connection to the peer ({removed_winner})") }
+                }
+            }
+            obs.evals(case.rounds as u64);
+            obs.nontrivial(&case);
+            Ok(())
+        })
+    }
+}
+
 pub fn run(tier: Tier) -> i32 {
     let mut ctx = Ctx::new("C05", tier);
     ctx.assume("arrival orders of two connections at two sides are enumerated completely at the decision level; at driver and network level they are generated through schedules and asymmetric delays");
     ctx.run_part(Decision, tier.pick(20_000, 500_000));
     ctx.run_part(BothSidesPart, tier.pick(1_500, 40_000));
-    ctx.run_part(Networks, tier.pick(1_200, 30_000));
+    ctx.run_part(Networks, tier.pick(8_000, 200_000));
     ctx.assume("the real-time part costs wall-clock time and is not a pure function of the seed; its oracle only looks at the converged end state");
     ctx.run_part_threads(NetworksRealTime, tier.pick(32, 320), 16);
+    ctx.run_part_threads(CloseNoticeRace, tier.pick(16, 300), 4);
     ctx.finish()
 }
